@@ -27,6 +27,11 @@ type Schema struct {
 	file  *fs.File
 	inner *internalSchema.Schema
 
+	// compiled is the schema Check, Validate and Example work with: inner with a
+	// private table of types. Compilation adds types to the table, and inner is
+	// shared with every schema this one was added to as a type.
+	compiled *internalSchema.Schema
+
 	rules map[string]jschema.Rule
 
 	usedUserTypes []string
@@ -97,7 +102,7 @@ func (s *Schema) Example() (b []byte, err error) {
 		return nil, errors.NewDocumentError(s.file, errors.ErrEmptySchema)
 	}
 
-	ex, err := newExampleBuilder(s.inner.TypesList()).Build(s.inner.RootNode())
+	ex, err := newExampleBuilder(s.compiled.TypesList()).Build(s.compiled.RootNode())
 	if err != nil {
 		return nil, err
 	}
@@ -216,7 +221,7 @@ func (s *Schema) Validate(document jschema.Document) (err error) {
 
 func (s *Schema) validate(document jschema.Document) error {
 	tree := validator.NewTree(
-		validator.NodeValidatorList(s.inner.RootNode(), *s.inner, nil),
+		validator.NodeValidatorList(s.compiled.RootNode(), *s.compiled, nil),
 	)
 
 	empty := true
@@ -456,9 +461,14 @@ func (s *Schema) compile() error {
 		if err := s.load(); err != nil {
 			return err
 		}
-		loader.CompileAllOf(s.inner)
-		loader.AddUnnamedTypes(s.inner)
-		checker.CheckRootSchema(s.inner)
-		return checker.CheckRecursion(s.file.Name(), s.inner)
+		compiled := s.inner.WithOwnTypes()
+		loader.CompileAllOf(compiled)
+		loader.AddUnnamedTypes(compiled)
+		checker.CheckRootSchema(compiled)
+		if err := checker.CheckRecursion(s.file.Name(), compiled); err != nil {
+			return err
+		}
+		s.compiled = compiled
+		return nil
 	})
 }
